@@ -100,9 +100,9 @@ Proof.
   right. cbn. auto.
 Qed.
 
-Lemma demux_existing : forall c s sg up,
-  sget (t_sess s) (s_dst sg, s_src sg) = Some up -> tcp_demux c s sg = (DSession up, s).
-Proof. intros c s sg up H. unfold tcp_demux. rewrite H. reflexivity. Qed.
+Lemma demux_existing : forall cr c s sg up,
+  sget (t_sess s) (s_dst sg, s_src sg) = Some up -> tcp_demux_gen cr c s sg = (DSession up, s).
+Proof. intros cr c s sg up H. unfold tcp_demux_gen. rewrite H. reflexivity. Qed.
 
 Lemma listen_branch_sess : forall s sg up,
   snd (listen_branch s sg up) = s \/
@@ -120,14 +120,14 @@ Qed.
 
 (* the only way Tcp::demux changes anything: a session for (destination, source) is added, and only when
    none existed and the segment is a SYN without RST and ACK *)
-Lemma demux_effect : forall c s sg,
-  snd (tcp_demux c s sg) = s \/
+Lemma demux_effect : forall cr c s sg,
+  snd (tcp_demux_gen cr c s sg) = s \/
   (exists up, sget (t_sess s) (s_dst sg, s_src sg) = None /\
-     fst (tcp_demux c s sg) = DListenCreate up /\
-     snd (tcp_demux c s sg) = set_sess s (((s_dst sg, s_src sg), up) :: t_sess s) /\
+     fst (tcp_demux_gen cr c s sg) = DListenCreate up /\
+     snd (tcp_demux_gen cr c s sg) = set_sess s (((s_dst sg, s_src sg), up) :: t_sess s) /\
      f_rst sg = false /\ f_ack sg = false /\ f_syn sg = true).
 Proof.
-  intros c s sg. unfold tcp_demux.
+  intros cr c s sg. unfold tcp_demux_gen.
   destruct (sget (t_sess s) (s_dst sg, s_src sg)) eqn:G; [left; reflexivity|].
   destruct (tget (t_listen s) (s_dst sg)) as [up|].
   - destruct (listen_branch_sess s sg up) as [H|(H1 & H2 & H3 & H4 & H5 & _)]; [left; exact H|].
@@ -138,39 +138,39 @@ Proof.
     right. exists up. auto 7.
 Qed.
 
-Lemma arrive_effect : forall c s sg,
-  snd (arrive c s sg) = s \/
+Lemma arrive_effect : forall s sg,
+  snd (arrive s sg) = s \/
   (exists up, sget (t_sess s) (s_dst sg, s_src sg) = None /\
-     fst (arrive c s sg) = DListenCreate up /\
-     snd (arrive c s sg) = set_sess s (((s_dst sg, s_src sg), up) :: t_sess s) /\
+     fst (arrive s sg) = DListenCreate up /\
+     snd (arrive s sg) = set_sess s (((s_dst sg, s_src sg), up) :: t_sess s) /\
      f_rst sg = false /\ f_ack sg = false /\ f_syn sg = true).
 Proof.
-  intros c s sg. unfold arrive.
+  intros s sg. unfold arrive.
   destruct (tlookup (t_ip s) (fst (s_dst sg), TCP_PROTO)) as [up|]; [|left; reflexivity].
-  destruct (up =? TCP_TID); [apply demux_effect | left; reflexivity].
+  destruct (up =? TCP_TID); [apply (demux_effect closed_reply false) | left; reflexivity].
 Qed.
 
 (* RST or ACK segments never create a session: nothing at all changes *)
-Lemma rst_ack_never_create : forall c s sg,
-  f_rst sg = true \/ f_ack sg = true -> snd (arrive c s sg) = s /\ snd (tcp_demux c s sg) = s.
+Lemma rst_ack_never_create : forall s sg,
+  f_rst sg = true \/ f_ack sg = true -> snd (arrive s sg) = s /\ snd (tcp_demux s sg) = s.
 Proof.
-  intros c s sg H. split.
-  - destruct (arrive_effect c s sg) as [E|(up & _ & _ & _ & R & A & _)]; [exact E|].
+  intros s sg H. split.
+  - destruct (arrive_effect s sg) as [E|(up & _ & _ & _ & R & A & _)]; [exact E|].
     destruct H as [H|H]; congruence.
-  - destruct (demux_effect c s sg) as [E|(up & _ & _ & _ & R & A & _)]; [exact E|].
+  - destruct (demux_effect closed_reply false s sg) as [E|(up & _ & _ & _ & R & A & _)]; [exact E|].
     destruct H as [H|H]; congruence.
 Qed.
 
 (* a SYN to a bound port: exactly one session, keyed by (local = destination, remote = source), owned
    by the application of the exact binding or, absent one, of the wildcard binding *)
-Lemma syn_creates_one : forall c s sg up,
+Lemma syn_creates_one : forall cr c s sg up,
   sget (t_sess s) (s_dst sg, s_src sg) = None ->
   (tget (t_listen s) (s_dst sg) = Some up \/
    (tget (t_listen s) (s_dst sg) = None /\ c = false /\ tget (t_listen s) (ANY, snd (s_dst sg)) = Some up)) ->
   f_rst sg = false -> f_ack sg = false -> f_syn sg = true -> zmem up (t_protos s) = true ->
-  tcp_demux c s sg = (DListenCreate up, set_sess s (((s_dst sg, s_src sg), up) :: t_sess s)).
+  tcp_demux_gen cr c s sg = (DListenCreate up, set_sess s (((s_dst sg, s_src sg), up) :: t_sess s)).
 Proof.
-  intros c s sg up G B R A Sy Z. unfold tcp_demux. rewrite G.
+  intros cr c s sg up G B R A Sy Z. unfold tcp_demux_gen. rewrite G.
   assert (L : listen_branch s sg up = (DListenCreate up, set_sess s (((s_dst sg, s_src sg), up) :: t_sess s))).
   { unfold listen_branch, listen_result. rewrite R, A, Sy, Z. reflexivity. }
   destruct B as [B|(B1 & -> & B2)].
@@ -178,39 +178,39 @@ Proof.
   - rewrite B1, B2. exact L.
 Qed.
 
-Lemma later_segments : forall c s sg up sg',
+Lemma later_segments : forall cr c s sg up sg',
   s_dst sg' = s_dst sg -> s_src sg' = s_src sg ->
-  tcp_demux c (set_sess s (((s_dst sg, s_src sg), up) :: t_sess s)) sg' =
+  tcp_demux_gen cr c (set_sess s (((s_dst sg, s_src sg), up) :: t_sess s)) sg' =
   (DSession up, set_sess s (((s_dst sg, s_src sg), up) :: t_sess s)).
 Proof.
-  intros c s sg up sg' Hd Hs. apply demux_existing. cbn [t_sess set_sess]. rewrite Hd, Hs.
+  intros cr c s sg up sg' Hd Hs. apply demux_existing. cbn [t_sess set_sess]. rewrite Hd, Hs.
   apply sget_cons_eq.
 Qed.
 
 (* an exact binding wins over the wildcard, whatever the wildcard entry and the shard layout are *)
-Lemma exact_wins : forall c s sg up,
+Lemma exact_wins : forall cr c s sg up,
   sget (t_sess s) (s_dst sg, s_src sg) = None -> tget (t_listen s) (s_dst sg) = Some up ->
-  tcp_demux c s sg = listen_branch s sg up.
-Proof. intros c s sg up G B. unfold tcp_demux. rewrite G, B. reflexivity. Qed.
+  tcp_demux_gen cr c s sg = listen_branch s sg up.
+Proof. intros cr c s sg up G B. unfold tcp_demux_gen. rewrite G, B. reflexivity. Qed.
 
-Lemma wildcard_used : forall s sg up,
+Lemma wildcard_used : forall cr s sg up,
   sget (t_sess s) (s_dst sg, s_src sg) = None -> tget (t_listen s) (s_dst sg) = None ->
   tget (t_listen s) (ANY, snd (s_dst sg)) = Some up ->
-  tcp_demux false s sg = listen_branch s sg up.
-Proof. intros s sg up G B1 B2. unfold tcp_demux. rewrite G, B1, B2. reflexivity. Qed.
+  tcp_demux_gen cr false s sg = listen_branch s sg up.
+Proof. intros cr s sg up G B1 B2. unfold tcp_demux_gen. rewrite G, B1, B2. reflexivity. Qed.
 
 (* no binding: no session, at most one reply, nothing changes *)
-Lemma no_binding : forall s sg,
+Lemma no_binding : forall cr s sg,
   sget (t_sess s) (s_dst sg, s_src sg) = None -> tget (t_listen s) (s_dst sg) = None ->
   tget (t_listen s) (ANY, snd (s_dst sg)) = None ->
-  tcp_demux false s sg = (DClosed (closed_reply sg), s).
-Proof. intros s sg G B1 B2. unfold tcp_demux. rewrite G, B1, B2. reflexivity. Qed.
+  tcp_demux_gen cr false s sg = (DClosed (cr sg), s).
+Proof. intros cr s sg G B1 B2. unfold tcp_demux_gen. rewrite G, B1, B2. reflexivity. Qed.
 
 Lemma closed_reply_shape : forall sg r,
   closed_reply sg = Some r ->
   f_rst sg = false /\ s_src r = s_dst sg /\ s_dst r = s_src sg /\ s_tlen r = 0 /\ f_rst r = true /\
   (f_ack sg = true -> s_flags r = FL_RST /\ s_seq r = s_ack sg) /\
-  (f_ack sg = false -> s_flags r = FL_RST_ACK /\ s_seq r = 0 /\ s_ack r = wrap32 (s_seq sg + s_tlen sg)).
+  (f_ack sg = false -> s_flags r = FL_RST_ACK /\ s_seq r = 0 /\ s_ack r = wrap32 (s_seq sg + seg_len sg)).
 Proof.
   intros sg r H. unfold closed_reply in H.
   destruct (f_rst sg); [discriminate|]. destruct (f_ack sg); inversion H; subst r; cbn;
@@ -220,38 +220,72 @@ Qed.
 Lemma closed_reply_rst : forall sg, f_rst sg = true -> closed_reply sg = None.
 Proof. intros sg H. unfold closed_reply. rewrite H. reflexivity. Qed.
 
-(* the reply agrees with RFC 9293 3.10.7.1 when the segment carries neither SYN nor FIN *)
-Lemma closed_reply_rfc : forall sg,
-  f_syn sg = false -> f_fin sg = false -> closed_reply sg = rfc_closed_reply sg.
+Lemma closed_reply_spec : forall sg,
+  (f_rst sg = true -> closed_reply sg = None) /\
+  (f_rst sg = false -> f_ack sg = true ->
+     closed_reply sg = Some (mkSeg (s_dst sg) (s_src sg) FL_RST (s_ack sg) 0 0)) /\
+  (f_rst sg = false -> f_ack sg = false ->
+     closed_reply sg = Some (mkSeg (s_dst sg) (s_src sg) FL_RST_ACK 0
+                               (wrap32 (s_seq sg + (s_tlen sg + (if f_syn sg then 1 else 0) + (if f_fin sg then 1 else 0)))) 0)).
 Proof.
-  intros sg Hs Hf. unfold closed_reply, rfc_closed_reply, seg_len. rewrite Hs, Hf, !Z.add_0_r. reflexivity.
+  intros sg. unfold closed_reply, seg_len. repeat split.
+  - intros ->. reflexivity.
+  - intros -> ->. reflexivity.
+  - intros -> ->. reflexivity.
+Qed.
+
+(* the code before ba8dc528 did not count SYN and FIN: it agreed with the present reply exactly on
+   segments that carry neither *)
+Lemma closed_reply_orig_agrees : forall sg,
+  f_syn sg = false -> f_fin sg = false -> closed_reply_orig sg = closed_reply sg.
+Proof.
+  intros sg Hs Hf. unfold closed_reply, closed_reply_orig, seg_len. rewrite Hs, Hf, !Z.add_0_r. reflexivity.
 Qed.
 
 (* ... and not otherwise: a bare SYN with sequence number 100 *)
 Lemma closed_reply_syn_deviates :
   let sg := mkSeg (167772161, 4000) (167772162, 81) 2 100 0 0 in
   f_syn sg = true /\
-  closed_reply sg = Some (mkSeg (167772162, 81) (167772161, 4000) FL_RST_ACK 0 100 0) /\
-  rfc_closed_reply sg = Some (mkSeg (167772162, 81) (167772161, 4000) FL_RST_ACK 0 101 0).
+  closed_reply_orig sg = Some (mkSeg (167772162, 81) (167772161, 4000) FL_RST_ACK 0 100 0) /\
+  closed_reply sg = Some (mkSeg (167772162, 81) (167772161, 4000) FL_RST_ACK 0 101 0).
 Proof. vm_compute. repeat split; reflexivity. Qed.
 
-(* the lock: no session, no exact binding, both keys in one shard *)
+(* the lock of the code before b7a73ede: no session, no exact binding, both keys in one shard *)
 Lemma lookup_deadlock : forall s sg,
   sget (t_sess s) (s_dst sg, s_src sg) = None -> tget (t_listen s) (s_dst sg) = None ->
-  tcp_demux true s sg = (DDeadlock, s).
-Proof. intros s sg G B. unfold tcp_demux. rewrite G, B. reflexivity. Qed.
+  tcp_demux_orig true s sg = (DDeadlock, s).
+Proof. intros s sg G B. unfold tcp_demux_orig, tcp_demux_gen. rewrite G, B. reflexivity. Qed.
+
+(* the code as it is never blocks there *)
+Lemma listen_branch_no_deadlock : forall s sg up, fst (listen_branch s sg up) <> DDeadlock.
+Proof.
+  intros s sg up. unfold listen_branch. destruct (listen_result sg); cbn [fst]; try discriminate.
+  destruct (zmem up (t_protos s)); discriminate.
+Qed.
+
+Lemma demux_no_deadlock : forall s sg, fst (tcp_demux s sg) <> DDeadlock /\ fst (arrive s sg) <> DDeadlock.
+Proof.
+  assert (D : forall s sg, fst (tcp_demux s sg) <> DDeadlock).
+  { intros s sg. unfold tcp_demux, tcp_demux_gen.
+    destruct (sget (t_sess s) (s_dst sg, s_src sg)); [discriminate|].
+    destruct (tget (t_listen s) (s_dst sg)); [apply listen_branch_no_deadlock|].
+    destruct (tget (t_listen s) (ANY, snd (s_dst sg))); [apply listen_branch_no_deadlock | discriminate]. }
+  intros s sg. split; [apply D|]. unfold arrive.
+  destruct (tlookup (t_ip s) (fst (s_dst sg), TCP_PROTO)) as [up|]; [|discriminate].
+  destruct (up =? TCP_TID); [apply D | discriminate].
+Qed.
 
 (* ---------- histories ---------- *)
 Inductive top :=
 | TListen (up : Z) (e : key)
 | TOpen (up : Z) (p : pair)
-| TArrive (collide : bool) (sg : seg).
+| TArrive (sg : seg).
 
 Definition tapply (s : tstate) (o : top) : tstate :=
   match o with
   | TListen up e => snd (tcp_listen s up e)
   | TOpen up p => snd (tcp_open s up p)
-  | TArrive c sg => snd (arrive c s sg)
+  | TArrive sg => snd (arrive s sg)
   end.
 
 Definition trun (s : tstate) (ops : list top) : tstate := fold_left tapply ops s.
@@ -260,11 +294,11 @@ Lemma tapply_sess : forall s o,
   t_sess (tapply s o) = t_sess s \/
   exists p up, sget (t_sess s) p = None /\ t_sess (tapply s o) = (p, up) :: t_sess s.
 Proof.
-  intros s [up e|up p|c sg]; cbn [tapply].
+  intros s [up e|up p|sg]; cbn [tapply].
   - left. apply tcp_listen_sess.
   - destruct (tcp_open_sess s up p) as [H|(H1 & _ & H3)]; [left; exact H|].
     right. exists p, up. auto.
-  - destruct (arrive_effect c s sg) as [H|(up & H1 & _ & H3 & _)]; [left; rewrite H; reflexivity|].
+  - destruct (arrive_effect s sg) as [H|(up & H1 & _ & H3 & _)]; [left; rewrite H; reflexivity|].
     right. exists (s_dst sg, s_src sg), up. rewrite H3. auto.
 Qed.
 
@@ -301,11 +335,11 @@ Qed.
 Lemma no_reuse : forall ops s p up,
   sget (t_sess s) p = Some up ->
   (forall up', tcp_open (trun s ops) up' p = (1, trun s ops)) /\
-  (forall c sg, (s_dst sg, s_src sg) = p -> tcp_demux c (trun s ops) sg = (DSession up, trun s ops)).
+  (forall cr c sg, (s_dst sg, s_src sg) = p -> tcp_demux_gen cr c (trun s ops) sg = (DSession up, trun s ops)).
 Proof.
   intros ops s p up H. pose proof (trun_keeps ops s p up H) as K. split.
   - intros up'. eapply tcp_open_existing. exact K.
-  - intros c sg E. apply demux_existing. rewrite E. exact K.
+  - intros cr c sg E. apply demux_existing. rewrite E. exact K.
 Qed.
 
 (* ---------- the validator ---------- *)
@@ -338,7 +372,7 @@ Lemma vstep_frame_justified : forall script st m to sg st',
   (exists up, sget (t_sess (nth m (v_ms st) dummy_t)) (s_src sg, s_dst sg) = Some up) \/
   In (m, to, sg) (v_owed st).
 Proof.
-  intros script st m to sg st' H. unfold vstep in H. destruct (v_hung st); [discriminate|].
+  intros script st m to sg st' H. unfold vstep in H.
   destruct (remove1 frame_eqb (m, to, sg) (v_inj st)) eqn:R1; [left; eapply remove1_in; exact R1|].
   destruct (sget (t_sess (nth m (v_ms st) dummy_t)) (s_src sg, s_dst sg)) as [up|] eqn:G.
   - right. left. exists up. reflexivity.
@@ -348,21 +382,16 @@ Qed.
 
 (* every arrival of an accepted trace changes the machine as Ipv4::demux ; Tcp::demux prescribe, and
    the reply they hand down (at most one) becomes owed to the interface the segment came from *)
-Lemma vstep_arrival : forall script st m from sg c st',
-  vstep script st (EArr m from sg c) = Some st' ->
-  v_hung st = false /\
-  let d := fst (arrive c (nth m (v_ms st) dummy_t) sg) in
-  let s' := snd (arrive c (nth m (v_ms st) dummy_t) sg) in
-  (d = DDeadlock /\ v_hung st' = true /\ v_ms st' = v_ms st /\ v_owed st' = v_owed st) \/
-  (d <> DDeadlock /\ v_hung st' = false /\ v_ms st' = upd (v_ms st) m s' /\
-   v_owed st' = match reply_of d with Some r => (m, from, r) :: v_owed st | None => v_owed st end).
+Lemma vstep_arrival : forall script st m from sg st',
+  vstep script st (EArr m from sg) = Some st' ->
+  let d := fst (arrive (nth m (v_ms st) dummy_t) sg) in
+  let s' := snd (arrive (nth m (v_ms st) dummy_t) sg) in
+  v_ms st' = upd (v_ms st) m s' /\ v_inj st' = v_inj st /\
+  v_owed st' = match reply_of d with Some r => (m, from, r) :: v_owed st | None => v_owed st end.
 Proof.
-  intros script st m from sg c st' H. unfold vstep in H. destruct (v_hung st); [discriminate|].
-  split; [reflexivity|]. cbn zeta.
-  destruct (arrive c (nth m (v_ms st) dummy_t) sg) as [d s'] eqn:E. cbn [fst snd].
-  destruct d; inversion H; subst st'; cbn [v_hung v_ms v_owed reply_of];
-    first [ left; repeat split; reflexivity
-          | right; split; [discriminate | repeat split; reflexivity] ].
+  intros script st m from sg st' H. unfold vstep in H. cbn zeta.
+  destruct (arrive (nth m (v_ms st) dummy_t) sg) as [d s'] eqn:E. cbn [fst snd].
+  inversion H; subst st'. cbn [v_ms v_owed v_inj]. repeat split.
 Qed.
 
 (* notifications and bytes reach the application that owns the session of their endpoint pair *)
@@ -370,7 +399,7 @@ Lemma vstep_app : forall script st m app p st',
   vstep script st (ENtf m app p) = Some st' \/ vstep script st (EByt m app p) = Some st' ->
   sget (t_sess (nth m (v_ms st) dummy_t)) p = Some app.
 Proof.
-  intros script st m app p st' [H|H]; unfold vstep in H; destruct (v_hung st); try discriminate;
+  intros script st m app p st' [H|H]; unfold vstep in H;
     destruct (sget (t_sess (nth m (v_ms st) dummy_t)) p) as [up|]; try discriminate;
     destruct (up =? app) eqn:E; try discriminate; apply Z.eqb_eq in E; congruence.
 Qed.
@@ -393,8 +422,8 @@ Proof. unfold wf_sess. cbn. constructor. Qed.
 Lemma vstep_wf : forall script st e st',
   Forall wf_sess (v_ms st) -> vstep script st e = Some st' -> Forall wf_sess (v_ms st').
 Proof.
-  intros script st e st' F H. unfold vstep in H. destruct (v_hung st); [discriminate|].
-  destruct e as [k code|k code|k|k|m to sg|m from sg c|m app p|m app p].
+  intros script st e st' F H. unfold vstep in H.
+  destruct e as [k code|k code|k|k|m to sg|m from sg|m app p|m app p].
   - destruct (nth_error script k) as [[m app ep|? ? ?| |? ? ?]|]; try discriminate.
     pose proof (tapply_wf (nth m (v_ms st) dummy_t) (TListen app ep) (nth_Forall _ _ _ m _ F dummy_wf)) as W.
     cbn [tapply] in W. destruct (tcp_listen (nth m (v_ms st) dummy_t) app ep) as [c s'].
@@ -408,9 +437,9 @@ Proof.
   - destruct (remove1 frame_eqb (m, to, sg) (v_inj st)); [inversion H; subst; exact F|].
     destruct (sget (t_sess (nth m (v_ms st) dummy_t)) (s_src sg, s_dst sg)); [inversion H; subst; exact F|].
     destruct (remove1 frame_eqb (m, to, sg) (v_owed st)); inversion H; subst; exact F.
-  - pose proof (tapply_wf (nth m (v_ms st) dummy_t) (TArrive c sg) (nth_Forall _ _ _ m _ F dummy_wf)) as W.
-    cbn [tapply] in W. destruct (arrive c (nth m (v_ms st) dummy_t) sg) as [d s'].
-    destruct d; inversion H; subst st'; cbn [v_ms snd] in *; try (apply Forall_upd; assumption). exact F.
+  - pose proof (tapply_wf (nth m (v_ms st) dummy_t) (TArrive sg) (nth_Forall _ _ _ m _ F dummy_wf)) as W.
+    cbn [tapply] in W. destruct (arrive (nth m (v_ms st) dummy_t) sg) as [d s'].
+    inversion H; subst st'; cbn [v_ms snd] in *. apply Forall_upd; assumption.
   - destruct (sget (t_sess (nth m (v_ms st) dummy_t)) p) as [up|]; [|discriminate].
     destruct (up =? app); inversion H; subst; exact F.
   - destruct (sget (t_sess (nth m (v_ms st) dummy_t)) p) as [up|]; [|discriminate].
@@ -440,20 +469,16 @@ Proof.
     econstructor; [exact E | apply IH; exact H].
 Qed.
 
-Lemma validate_sound : forall script ms tr hung,
-  validate script ms tr hung = 0 -> Forall wf_sess ms ->
-  exists st', chain script (mkV ms [] [] false) tr st' /\
-    v_hung st' = hung /\ Forall wf_sess (v_ms st') /\
-    (hung = false -> v_owed st' = [] /\ v_inj st' = []).
+Lemma validate_sound : forall script ms tr,
+  validate script ms tr = 0 -> Forall wf_sess ms ->
+  exists st', chain script (mkV ms [] []) tr st' /\
+    Forall wf_sess (v_ms st') /\ v_owed st' = [] /\ v_inj st' = [].
 Proof.
-  intros script ms tr hung H F. unfold validate in H.
-  destruct (vrun script (mkV ms [] [] false) tr) as [st|] eqn:R; [|discriminate].
-  exists st. split; [apply vrun_chain; exact R|].
-  destruct (Bool.eqb (v_hung st) hung) eqn:E; cbn [negb] in H; [|discriminate].
-  apply Bool.eqb_prop in E. split; [exact E|]. split.
+  intros script ms tr H F. unfold validate in H.
+  destruct (vrun script (mkV ms [] []) tr) as [st|] eqn:R; [|discriminate].
+  exists st. split; [apply vrun_chain; exact R|]. split.
   - eapply vrun_wf; [|exact R]. exact F.
-  - intros Hh. rewrite Hh in E. rewrite E in H.
-    destruct (v_owed st); [|discriminate]. destruct (v_inj st); [|discriminate]. auto.
+  - destruct (v_owed st); [|discriminate]. destruct (v_inj st); [|discriminate]. auto.
 Qed.
 
 (* ---------- concrete witnesses ---------- *)
@@ -464,32 +489,34 @@ Definition ex_t1 : tstate := snd (tcp_listen ex_t0 1 (ANY, 80)).
 (* a SYN addressed to 0.0.0.0:81 passes Ipv4 (wildcard TCP binding), finds no session and no exact
    binding, and the wildcard key IS the exact key: the second `entry` is on the very same key *)
 Lemma deadlock_example :
-  arrive true ex_t1 (mkSeg (167772417, 4000) (ANY, 81) 2 7 0 0) = (DDeadlock, ex_t1).
-Proof. vm_compute. reflexivity. Qed.
+  tcp_demux_orig true ex_t1 (mkSeg (167772417, 4000) (ANY, 81) 2 7 0 0) = (DDeadlock, ex_t1) /\
+  arrive ex_t1 (mkSeg (167772417, 4000) (ANY, 81) 2 7 0 0) =
+    (DClosed (Some (mkSeg (ANY, 81) (167772417, 4000) 20 0 8 0)), ex_t1).
+Proof. vm_compute. split; reflexivity. Qed.
 
 (* Tcp::listen overwrites: application 2 takes the endpoint from application 1 without any error, and a SYN
    then creates a session for application 2 *)
 Lemma listen_overwrites_example :
   let s2 := snd (tcp_listen ex_t1 2 (ANY, 80)) in
   fst (tcp_listen ex_t1 2 (ANY, 80)) = 0 /\
-  fst (arrive false s2 (mkSeg (167772417, 4000) (167772161, 80) 2 7 0 0)) = DListenCreate 2.
+  fst (arrive s2 (mkSeg (167772417, 4000) (167772161, 80) 2 7 0 0)) = DListenCreate 2.
 Proof. vm_compute. split; reflexivity. Qed.
 
 (* the hypotheses of the creation theorem are satisfiable; a duplicate SYN and a later ACK go to the session *)
 Lemma creation_example :
   let syn := mkSeg (167772417, 4000) (167772161, 80) 2 7 0 0 in
-  let s2 := snd (arrive false ex_t1 syn) in
-  fst (arrive false ex_t1 syn) = DListenCreate 1 /\
-  fst (arrive false s2 syn) = DSession 1 /\
-  fst (arrive false s2 (mkSeg (167772417, 4000) (167772161, 80) 16 8 1 0)) = DSession 1 /\
-  fst (arrive false s2 (mkSeg (167772417, 4001) (167772161, 80) 16 8 1 0)) =
+  let s2 := snd (arrive ex_t1 syn) in
+  fst (arrive ex_t1 syn) = DListenCreate 1 /\
+  fst (arrive s2 syn) = DSession 1 /\
+  fst (arrive s2 (mkSeg (167772417, 4000) (167772161, 80) 16 8 1 0)) = DSession 1 /\
+  fst (arrive s2 (mkSeg (167772417, 4001) (167772161, 80) 16 8 1 0)) =
     DListenReply (mkSeg (167772161, 80) (167772417, 4001) 4 1 0 0) /\
-  fst (arrive false s2 (mkSeg (167772417, 4001) (167772161, 81) 2 8 0 0)) =
-    DClosed (Some (mkSeg (167772161, 81) (167772417, 4001) 20 0 8 0)) /\
-  fst (arrive false s2 (mkSeg (167772417, 4001) (167772162, 80) 4 8 0 0)) = DListenIgnore /\
+  fst (arrive s2 (mkSeg (167772417, 4001) (167772161, 81) 2 8 0 0)) =
+    DClosed (Some (mkSeg (167772161, 81) (167772417, 4001) 20 0 9 0)) /\
+  fst (arrive s2 (mkSeg (167772417, 4001) (167772162, 80) 4 8 0 0)) = DListenIgnore /\
   wf_sess s2.
 Proof.
   cbn zeta. repeat split; try (vm_compute; reflexivity).
-  apply (tapply_wf ex_t1 (TArrive false (mkSeg (167772417, 4000) (167772161, 80) 2 7 0 0))).
+  apply (tapply_wf ex_t1 (TArrive (mkSeg (167772417, 4000) (167772161, 80) 2 7 0 0))).
   unfold wf_sess. cbn. constructor.
 Qed.
